@@ -476,7 +476,9 @@ where
                 return Err(self.mk_error(LexErrorKind::InvalidName, i + rspace + 1));
             }
             name = Some(orig_name[1..orig_name.len() - 1].to_string());
-            name_span = Span::new(i + rspace + 2, i + rspace + orig_name.len());
+            // `orig_name` is the end of `line`: any `<state>` target comes before it.
+            let name_off = i + line.len() - orig_name.len();
+            name_span = Span::new(name_off + 1, name_off + orig_name.len() - 1);
             self.rules.iter().any(|r| {
                 let dupe = r.name().is_some_and(|n| n == name.as_ref().unwrap());
                 if dupe {
@@ -1161,6 +1163,16 @@ mod test {
             *intrule.target_state().as_ref().unwrap()
         );
         assert_eq!(0, intrule.start_states().len());
+    }
+
+    #[test]
+    fn target_start_state_name_span() {
+        let src = "%s KNOWN\n%%\n. <KNOWN>'known'\nab <+KNOWN>\"kn\"";
+        let ast = LRNonStreamingLexerDef::<DefaultLexerTypes<u8>>::from_str(src).unwrap();
+        for rule in ast.iter_rules() {
+            let span = rule.name_span();
+            assert_eq!(rule.name().unwrap(), &src[span.start()..span.end()]);
+        }
     }
 
     #[test]
